@@ -103,13 +103,28 @@ static struct { int fd; const void* buf; size_t n; long off; int cnt; } g_zero;
 static char g_first_open[4096];      // first path passed to open during this op
 static int g_have_first_open;
 
+// every other case gives the writers file names behind a long (but legal: < PATH_MAX) chain of directories, so that whatever
+// formats a path into a fixed buffer (error messages, the side-by-side writer's file names) meets one that does not fit;
+// the prefix is removed from the event trace again, which is compared with the model's
+static int g_long;
+static char g_longpfx[1400];
 static void ev(const char* fmt, ...)
 {
     va_list ap;
     va_start(ap, fmt);
-    if (g_evlen < sizeof(g_ev) - 512) {
+    if (g_evlen < sizeof(g_ev) - 2048) {
+        char tmp[2000];
+        vsnprintf(tmp, sizeof tmp, fmt, ap);
+        size_t lp = strlen(g_longpfx);
+        if (g_long && lp) {
+            for (char* q; (q = strstr(tmp, g_longpfx));) memmove(q, q + lp, strlen(q + lp) + 1);
+        }
         if (g_evlen) g_ev[g_evlen++] = ' ';
-        g_evlen += (size_t)vsnprintf(g_ev + g_evlen, 500, fmt, ap);
+        size_t n = strlen(tmp);
+        if (n > 499) n = 499;
+        memcpy(g_ev + g_evlen, tmp, n);
+        g_evlen += n;
+        g_ev[g_evlen] = 0;
     }
     va_end(ap);
 }
@@ -334,12 +349,12 @@ int unlink(const char* path)
 static struct Storage* g_st;
 static int g_kind = -1;      // 0 raw 1 tiff 2 sxs 3 trash
 static int g_closed;
-static char g_cur_name[1024];     // path the current URI denotes (URI minus "file://")
+static char g_cur_name[2800];     // path the current URI denotes (URI minus "file://")
 static int g_have_name;
 
 // C14 oracle: the acquisition in progress / last finished on the raw device
 static int g_acq_clean;           // started on a path that did not exist, every append reported ok
-static char g_acq_path[1024];
+static char g_acq_path[2800];
 static unsigned char* g_acq;
 static size_t g_acq_len, g_acq_cap;
 
@@ -485,8 +500,8 @@ static void run_case(char** lines, int nlines)
                 printf("illformed\n");
                 continue;
             }
-            char uri[1200];
-            snprintf(uri, sizeof uri, "%s%s", u[0] == 'f' ? "file://" : "", u + 2);
+            char uri[2800];
+            snprintf(uri, sizeof uri, "%s%s%s", u[0] == 'f' ? "file://" : "", g_long ? g_longpfx : "", u + 2);
             struct StorageProperties props;
             memset(&props, 0, sizeof props);
             props.uri.str = uri;
@@ -503,7 +518,7 @@ static void run_case(char** lines, int nlines)
             enum DeviceStatusCode rc = storage_set(g_st, &props);
             g_active = 0;
             if (rc == Device_Ok) {
-                snprintf(g_cur_name, sizeof g_cur_name, "%s", u + 2);
+                snprintf(g_cur_name, sizeof g_cur_name, "%s%s", g_long ? g_longpfx : "", u + 2);
                 g_have_name = 1;
             }
             finish_op("set", rc == Device_Ok ? "ok" : "err", storage_get_state(g_st));
@@ -677,6 +692,17 @@ int main(int argc, char** argv)
             struct rlimit rl = { 1 << 20, 1 << 20 };   // 1 MiB of stack: run-away recursion fails fast
             setrlimit(RLIMIT_STACK, &rl);
             if (chdir(dir)) _exit(3);
+            g_long = (int)(ncase % 2 == 0);   // (ncase has been incremented: cases 1, 3, 5, … of the script)
+            if (g_long) {
+                g_longpfx[0] = 0;
+                for (int k = 0; k < 5; ++k) {
+                    size_t l = strlen(g_longpfx);
+                    memset(g_longpfx + l, 'L', 236);
+                    g_longpfx[l + 236] = 0;
+                    if (syscall(SYS_mkdir, g_longpfx, 0777) && errno != EEXIST) _exit(5);
+                    strcat(g_longpfx, "/");
+                }
+            }
             g_driver = acquire_driver_init_v0(quiet_reporter);
             if (!g_driver) _exit(4);
             run_case(lines + i, (int)(j - i));
